@@ -678,14 +678,14 @@ def check_c19(tier, deadline):
 
 
 # ---------------------------------------------------------------------------------------------- C13
-C13_RUNS = [("mut", "C13", 4, 6), ("frames", "C13", 4, 6), ("c07", "C13", 4, 6), ("params", "C13", 2, 3), ("lookup", "C13,C11", 4, 6), ("build", "C13,C01,C03", 3, 4), ("loaded", "C13", 3, 5), ("wild", "C13", 3, 4)]
+C13_RUNS = [("mut", "C13", 4, 6), ("frames", "C13", 4, 6), ("c07", "C13", 4, 6), ("params", "C13", 2, 3), ("lookup", "C13,C11", 3, 5), ("build", "C13,C01,C03", 3, 4), ("loaded", "C13", 3, 5), ("wild", "C13", 3, 4)]
 
 
 def check_c13(tier, deadline):
     rep = Report("C13", tier, "model_checking")
     runs = []
     for alphabet, oracles, dq, dt in C13_RUNS:
-        d = run_api("asan", alphabet, oracles, dq if tier == "quick" else dt, tier, deadline / len(C13_RUNS), hang=60)
+        d = run_api("asan", alphabet, oracles, dq if tier == "quick" else dt, tier, max(deadline / len(C13_RUNS), 90 if tier == "quick" else 0), hang=60)
         absorb_api(rep, d, set(), crash_prop="C13", san_prop="C13")
         d["probes"]["san_reports_total"] = d["san_reports_total"]
         runs.append(d)
